@@ -23,6 +23,63 @@ CLAIMS = {
              "comparing every response, list and offset; the disjointness oracle is also evaluated on the implementation's own output.",
         note=BASE_NOTE + "usize is modelled by unbounded N (offsets below 2^64 assumed); full for the model, fidelity by correspondence.",
         ref="DESIGN.md section 4 C01"),
+    "C02": dict(
+        engine="E1 bdiff",
+        technique="Coq proof (sortedness/alignment invariant over histories) + model/implementation differential",
+        text="Theorem C02 (coq/Props/C02.v): for ALL histories, every datum of every variant has off mod align = 0, ends at or below "
+             "max_size whenever max_size answers, max_type_align is a multiple of its alignment when alignments are powers of two, and the "
+             "non-zero-size data of a variant are listed in strictly increasing address order. E1 ties model and builder (offsets, lists, "
+             "max_size, max_type_align) and evaluates the same four clauses on the implementation's output. The published constants in the "
+             "generated text (MAX_SIZE, repr(align)) are tied by the generator engine once C03b is registered.",
+        note=BASE_NOTE + "Capacity clause is conditional on max_size not overflowing usize (unbounded N in the model).",
+        ref="DESIGN.md section 4 C02"),
+    "C03": dict(
+        engine="E1 bdiff",
+        technique="Coq proof (frame lemma over request histories) + differential with offset snapshots at every close",
+        text="Theorems C03a / C03a_variants_append_only: once a datum is in a closed variant no continuation of the history changes its "
+             "offset, and closed variants are never edited. Part (b) (one size/alignment of all generated record types) is PARTIAL here: "
+             "rustc's size_of is not modelled; it is covered by the generator engines (repr(align) and capacity identical for all variants). "
+             "E1 snapshots all offsets at every close and compares them at every later close on the implementation.",
+        note=BASE_NOTE + "Part (b) relies on the Rust reference rule for repr(align) structs, validated by execution only.",
+        ref="DESIGN.md section 4 C03"),
+    "C12": dict(
+        engine="E1 bdiff",
+        technique="Coq refinement proof to a set-level specification + differential including invalid request streams",
+        text="Theorem C12_refines: in every reachable state every request (valid or invalid) gets the response of the set-level spec "
+             "Spec12.sp_step and the state abstracts to the spec's next state (fresh ids = number handed out so far, variant = predecessor "
+             "- removals + additions, no-op close, rejections). C12_rejected_unchanged: a rejected request returns the very same state. "
+             "C12_unique_names, C12_build. Proved for the native builder's four strategies (the generic builder shares the request layer; "
+             "its two strategies are exercised through E1's replays into generic builders). E1 observes response + current data after "
+             "every request and full state after every close; its oracle checks 'unchanged after Err' on the full observable state.",
+        note=BASE_NOTE,
+        ref="DESIGN.md section 4 C12"),
+    "C13": dict(
+        engine="E1 bdiff",
+        technique="Coq proof over panic-aware models (Display, max_size) + differential including panics as observations",
+        text="Theorem C13a: for all histories whose data end below usize::MAX, the panic-aware models of Display and max_size return "
+             "(address order including zero-size data is what Display needs); refutation witnesses for both pre-fix panics are kept. "
+             "PARTIAL: generation/compilation (part b) is rustc's; the generator's binding decisions are covered by the generator engines "
+             "when registered. E1 records every panic of a request, of build(), max_size(), max_type_align() and to_string() as an observation.",
+        note=BASE_NOTE + "fits_usize is a hypothesis (the history bound lemma is future work).",
+        ref="DESIGN.md section 4 C13"),
+    "C18": dict(
+        engine="E1 bdiff",
+        technique="Coq proof (erasure commutes with every strategy and request) + differential under a synthetic resolver",
+        text="Theorem C18_congr: histories equal up to type names and uninit flags give equal responses, lists, offsets. The implementation "
+             "is tied to that function by E1 running under a synthetic resolver whose sizes/alignments never coincide with the host's "
+             "(marker types of host size 0), through all four entry points (typed, dynamic, override, copy) and with an oracle that replays "
+             "every history through rotated entry points. The type-table half (lookup, JSON round trip) is not covered yet.",
+        note=BASE_NOTE + "PARTIAL: StaticTypeResolver / JSON not modelled yet.",
+        ref="DESIGN.md section 4 C18"),
+    "C20": dict(
+        engine="E1 bdiff",
+        technique="Coq model of the helper + differential on every final definition into 6 target builders + isomorphism oracle; theorem partial",
+        text="The conversion helper is modelled over Builder.step (Convert in coq/Model/Builder.v). Proved: C20_partial (shape of the returned "
+             "map). The full isomorphism statement is written in coq/Props/C20.v and is NOT yet proved; it is decided per run by E1 "
+             "(model = implementation for the replay of every built definition into 4 native and 2 generic builders) plus the C20 oracle on the "
+             "implementation's result (one target variant per source variant, identity map, injective datum correspondence, equal names/type info).",
+        note=BASE_NOTE + "PARTIAL theorem; the deciding part is the differential + oracle.",
+        ref="DESIGN.md section 4 C20"),
 }
 
 
